@@ -276,6 +276,19 @@ def c17_connection(ch, build):
                                         {"op": "cmd", "conn": cn, "cmd": b, "script": second, "reuse": True}]}
                 alone = {"bmc": both["bmc"], "timeout_ms": 40, "steps": pre + [{"op": "cmd", "conn": cn, "cmd": b, "script": second}]}
                 scns += [both, alone]; meta.append((session, dict(b, reused=True), b))
+    # contexts: command A runs under a long-lived context that stays alive (the program's root context); command B then runs
+    # under its own short one against a BMC that is busy for longer than that: B ends with its OWN context, exactly as on a
+    # fresh connection - never later, never with another command's context error
+    for session in (False, True):
+        cn = "session" if session else "sessionless"
+        for k, b in enumerate(STATELESS[:4] if ch.quick() else STATELESS):
+            su = hist.SUITES[k % 9]
+            pre = [hs.open_step(suites=[su])] if session else []
+            stepb = {"op": "cmd", "conn": cn, "cmd": b, "script": ["busy"] * 40, "ctx_ms": 120}
+            both = {"bmc": default_bmc(seed=450 + k, suites=[[100, su[0], su[1], su[2]]], loose=True), "timeout_ms": 40, "backoff_ms": 25,
+                    "steps": [dict(s, keep_ctx=True) for s in pre] + [{"op": "cmd", "conn": cn, "cmd": rng.choice(STATELESS), "script": ["busy", "ok"], "keep_ctx": True, "ctx_ms": 60000}, stepb]}
+            alone = {"bmc": both["bmc"], "timeout_ms": 40, "backoff_ms": 25, "steps": pre + [stepb]}
+            scns += [both, alone]; meta.append((session, {"name": "kept-context"}, b))
     outs = run_scenarios(scns)
     for k, (session, a, b) in enumerate(meta):
         ob, oa = outs[2 * k], outs[2 * k + 1]
@@ -283,7 +296,7 @@ def c17_connection(ch, build):
         desc = {"kind": "connection-reuse", "conn": "session" if session else "sessionless", "a": a["name"], "b": b["name"]}
         ch.note_case("reuse-" + desc["conn"], "%s|%s" % (a, b))
         same = (rb["err"], rb["code"], rb["rsp"]) == (ra["err"], ra["code"], ra["rsp"])
-        if not session:
+        if not session and a.get("name") != "kept-context":      # (there the number of transmissions is a matter of timing)
             same = same and rb["sent"] == ra["sent"]
         if not same:
             ch.violation(desc, {"scenario": scns[2 * k], "what": "the same command gives a different result (or datagram) after another command",
